@@ -101,6 +101,9 @@ func PushScenario(t *rapid.T) sim.Scenario {
 			if rapid.IntRange(0, 9).Draw(t, "unknown") == 0 {
 				st.K = 77 // no such callback: unsolicited reply
 			}
+			if rapid.IntRange(0, 3).Draw(t, "lead") == 0 {
+				st.ID = "lead" // the reply travels in a batch behind a call of the peer's own
+			}
 		case roll < 72:
 			// the peer's own call, with an id that collides numerically with callback ids
 			nextK++
